@@ -74,6 +74,12 @@ Theorem C14_projection : forall g w,
   filter (lbl_in g) (dtrace d_init w) = dtrace d_init (filter (ev_in g) w).
 Proof. intros g w. apply projection. split; reflexivity. Qed.
 
+(* a restart of the receive loop (Actor restart, or stop() + start()) neither forgets the task in
+   flight nor the pending request, and starts nothing: every theorem above quantifies over words
+   that contain restarts at any position *)
+Theorem C14_restart_keeps_state : forall st, dstep st Restart = (st, []).
+Proof. reflexivity. Qed.
+
 (* a recorded run accepted by the replay function is a run of the model, so all of the
    above applies to its observed trace *)
 Theorem C14_replay_sound : forall obs st st',
@@ -90,6 +96,12 @@ Example C14_nonvacuous :
   dquiet (dfinal d_init w) 1 = true.
 Proof. vm_compute. repeat split. Qed.
 
+Example C14_restart_nonvacuous :
+  dtrace d_init [Arrive 1 10; Arrive 1 11; Restart; Arrive 1 12; Finish 1 false; Restart; Finish 1 true]
+  = [LA 1 10; LS 1 10; LA 1 11; LR; LA 1 12; LF 1 false; LS 1 12; LR; LF 1 true].
+Proof. vm_compute. reflexivity. Qed.
+
+Print Assumptions C14_restart_keeps_state.
 Print Assumptions C14_exclusive.
 Print Assumptions C14_exclusive_inflight.
 Print Assumptions C14_pending_inv.
